@@ -474,7 +474,7 @@ pub fn run(cx: &Cx) -> PropResult {
     let mut r = PropResult::new(
         acc,
         "exploration",
-        "values x: +-4096 around every width boundary (2^7, 2^14, 2^21, 2^28, 2^31, 0, 2^32-1) for u32 and for the zig-zag pre-images for i32, the lattice k*65537, and seeded random values of uniformly chosen bit length; thorough tier in the release profile enumerates all 2^32 u32 and all 2^32 i32 values (values of an enumeration are distinct by construction and are counted, not hashed). Oracle: bytes written to Vec<u8> and BytesMut equal the independently computed LEB128 / zig-zag reference, SizeCalculator.size() == that length == minimal length, continuation bit on all but the last byte, SliceInput / OwnedInput / DeserializationContext read the value back and leave the sentinel byte that follows unread. Every fifth u32 (and every one next to a width boundary) is also read as the constructor index of an enum by AdtDeserializer. Every value is read with 1 and with 9 further bytes behind it (values within 2 of a width boundary: 0..=16 bytes, with and without continuation bits). Also streams of 1-40 values appended to one Vec<u8> and one BytesMut (fresh, or with 1-9 bytes of initial capacity so that it must grow mid-value) and read back in order through all three inputs from a buffer that continues for 0-16 bytes, written as fields of an evolved record (into the context's chunk buffers) and compared with the reference layout, and read once more from inside the three chunks of that record placed in the middle of a buffer (regions of the context that do not start at offset 0). Non-trivial = needs >= 2 bytes.",
+        "values x: +-4096 around every width boundary (2^7, 2^14, 2^21, 2^28, 2^31, 0, 2^32-1) for u32 and for the zig-zag pre-images for i32, the lattice k*65537, and seeded random values of uniformly chosen bit length; thorough tier in the release profile enumerates all 2^32 u32 and all 2^32 i32 values (values of an enumeration are distinct by construction and are counted, not hashed). Oracle: bytes written to Vec<u8> and BytesMut equal the independently computed LEB128 / zig-zag reference, SizeCalculator.size() == that length == minimal length, continuation bit on all but the last byte, SliceInput / OwnedInput / DeserializationContext read the value back and leave the sentinel byte that follows unread. Every fifth u32 (and every one next to a width boundary) is also read as the constructor index of an enum by AdtDeserializer. Every value is read with 1 and with 9 further bytes behind it (values within 2 of a width boundary: 0..=16 bytes, with and without continuation bits). Also streams of 1-40 values appended to one Vec<u8> and one BytesMut (fresh, or with 1-9 bytes of initial capacity so that it must grow mid-value) and read back in order through all three inputs from a buffer that continues for 0-16 bytes, written as fields of an evolved record (into the context's chunk buffers) and compared with the reference layout, and read once more from inside the three chunks of that record placed in the middle of a buffer (regions of the context that do not start at offset 0). Values are also read and WRITTEN as constructor indices through AdtDeserializer / AdtSerializer::write_constructor (version-0 enum, and enum with a step of its own: index inside chunk 0), bytes against the layout. Non-trivial = needs >= 2 bytes.",
     );
     if exhaustive {
         r.exhaustive = Some(true);
